@@ -9,7 +9,7 @@ d=seeded/$name
 mkdir -p $d
 git -C $wt diff -- . ':(exclude)*_test.go' > $d/patch.diff
 # demonstration = untracked files of the worktree (plus modified test files, if any)
-for f in $(git -C $wt ls-files --others --exclude-standard); do
+for f in $(git -C $wt ls-files --others --exclude-standard | grep -v "\.patch$"); do
   case "$f" in MUTANT.md) cp $wt/$f $d/MUTANT.md;; *) mkdir -p $d/demo/$(dirname $f); cp $wt/$f $d/demo/$f;; esac
 done
 if [ ! -s $d/patch.diff ]; then echo "EMPTY PATCH"; exit 2; fi
